@@ -266,3 +266,115 @@ Proof.
     intros n'. apply (no_skip_before_limit c s n'); auto. rewrite He. unfold over_max. destruct (max_errors c); reflexivity. }
   apply count_ev_in in Hs. pose proof (at_most_once c s n Hc Hr). lia.
 Qed.
+
+(** * C10: the number of failures of a finished run *)
+(** only nodes of the graph are ever enqueued *)
+Lemma enqueued_is_node c s n : cfg_ok c -> reachable c s -> 0 < lc n s -> In n (nodes (g c)).
+Proof.
+  intros Hc Hr. induction Hr as [|s k s' Hr IH Hn]; intros Hl.
+  - unfold lc in Hl. simpl_st. rewrite csum_repeat_ns in Hl by reflexivity. rewrite cq_map_N in Hl.
+    unfold count_ev in Hl. cbn [count_occ] in Hl.
+    assert (In n (sources (g c))) by (apply (count_occ_In Nat.eq_dec); lia).
+    apply filter_In in H. tauto.
+  - pose proof (inv_reachable c s Hc Hr) as I.
+    destruct (step_lc _ _ _ _ I Hn n) as [E|(_ & _ & w & p & todo & _ & Hw & Hin)]; [apply IH; lia|].
+    destruct (i_succ _ _ I _ _ _ Hw) as (_ & _ & Ht). apply Ht in Hin. destruct Hin as [Hs _].
+    apply in_succs in Hs. destruct Hc as [[_ Hwf] _]. apply (Hwf p n Hs).
+Qed.
+
+(** a failing node none of whose (transitive) dependencies fails: the failures a run can observe *)
+Definition eligible (c : cfg) (n : nat) : Prop :=
+  In n (nodes (g c)) /\ fails c n = true /\ forall m, reach (g c) m n -> fails c m = false.
+
+Theorem failed_is_eligible c s n : cfg_ok c -> reachable c s -> In (EFail n) (hist s) -> eligible c n.
+Proof.
+  intros Hc Hr Hf. pose proof (inv_reachable c s Hc Hr) as I.
+  pose proof (fail_started c s n I Hf) as Hs. repeat split.
+  - apply (enqueued_is_node c s n Hc Hr). apply (started_enqueued c s n I Hs).
+  - apply (proj2 (c_f c s (cinv_reachable c s Hc Hr))). exact Hf.
+  - apply (started_no_failed_ancestor c s n Hc Hr Hs).
+Qed.
+
+Definition failed (h : list ev) : list nat :=
+  flat_map (fun e => match e with EFail n => [n] | _ => [] end) h.
+
+Lemma failed_length h : length (failed h) = nfail h.
+Proof.
+  induction h as [|e h IH]; [reflexivity|]. rewrite nfail_cons. cbn [failed flat_map]. rewrite app_length.
+  fold (failed h). rewrite IH. destruct e; reflexivity.
+Qed.
+
+Lemma failed_count n h : count_occ Nat.eq_dec (failed h) n = count_ev (EFail n) h.
+Proof.
+  induction h as [|e h IH]; [reflexivity|]. rewrite count_ev_cons. cbn [failed flat_map].
+  rewrite count_occ_app. fold (failed h). rewrite IH.
+  destruct e; cbn [count_occ]; destruct (ev_eq_dec _ _) as [E|E]; try discriminate; try lia.
+  - inversion E; subst. destruct (Nat.eq_dec n n); [lia|congruence].
+  - destruct (Nat.eq_dec n0 n); [subst; congruence|lia].
+Qed.
+
+Lemma failed_in n h : In n (failed h) <-> In (EFail n) h.
+Proof. rewrite (count_occ_In Nat.eq_dec), failed_count. unfold gt. apply count_ev_in. Qed.
+
+Lemma fail_le_1 c s n : Inv c s -> count_ev (EFail n) (hist s) <= 1.
+Proof. intros I. pose proof (start_le_1 c s n I). pose proof (i_fin _ _ I n). lia. Qed.
+
+Lemma failed_nodup c s : Inv c s -> NoDup (failed (hist s)).
+Proof. intros I. apply (NoDup_count_occ Nat.eq_dec). intros n. rewrite failed_count. eapply fail_le_1; eauto. Qed.
+
+(** in every reachable state: at most the eligible nodes have failed *)
+Theorem failures_le_eligible c s elig :
+  cfg_ok c -> reachable c s -> (forall n, eligible c n -> In n elig) -> nfail (hist s) <= length elig.
+Proof.
+  intros Hc Hr He. rewrite <- failed_length. apply NoDup_incl_length.
+  - apply (failed_nodup c s). apply inv_reachable; auto.
+  - intros n Hn. apply He. apply (failed_is_eligible c s n Hc Hr). apply failed_in. exact Hn.
+Qed.
+
+(** a finished run that never exceeded the limit has observed every eligible failure *)
+Theorem failures_all_if_not_stopped c s elig :
+  cfg_ok c -> acyclic (g c) -> reachable c s -> final s -> intr s = None ->
+  over_max c (errc s) = false ->
+  NoDup elig -> (forall n, In n elig <-> eligible c n) -> nfail (hist s) = length elig.
+Proof.
+  intros Hc Ha Hr Hf Hi Ho Hnd He. apply Nat.le_antisymm.
+  - apply (failures_le_eligible c s elig Hc Hr). intros n. apply He.
+  - rewrite <- failed_length. apply NoDup_incl_length; [exact Hnd|].
+    intros n Hn. apply He in Hn. destruct Hn as (Hn & Hfl & Hanc). apply failed_in.
+    destruct (c_f c s (cinv_reachable c s Hc Hr)) as [F1 F2].
+    assert (Hs : In (EStart n) (hist s)).
+    { apply (final_complete c s); auto.
+      - intros n'. apply (no_skip_before_limit c s n'); auto.
+      - intros m Hmn Hm. apply F2 in Hm. rewrite (Hanc m Hmn) in Hm. discriminate. }
+    destruct (final_counts c s n Hc Hr Hf Hi) as (_ & _ & E). apply count_ev_in in Hs.
+    destruct (Nat.eq_dec (count_ev (EOk n) (hist s)) 0) as [Ez|Enz]; [apply count_ev_in; lia|].
+    exfalso. assert (Hok : In (EOk n) (hist s)) by (apply count_ev_in; lia).
+    apply F1 in Hok. congruence.
+Qed.
+
+(** any number of workers: the exact count, or the limit was exceeded by at most the in-flight calls *)
+Theorem failures_final c s k elig :
+  cfg_ok c -> acyclic (g c) -> max_errors c = Some k -> reachable c s -> final s -> intr s = None ->
+  NoDup elig -> (forall n, In n elig <-> eligible c n) ->
+  (errc s <= k /\ nfail (hist s) = length elig) \/
+  (k < errc s /\ k + 1 <= nfail (hist s) <= k + workers c /\ nfail (hist s) <= length elig).
+Proof.
+  intros Hc Ha Hm Hr Hf Hi Hnd He. destruct (over_max c (errc s)) eqn:Ho.
+  - right. unfold over_max in Ho. rewrite Hm in Ho. apply Nat.ltb_lt in Ho. split; [exact Ho|].
+    pose proof (final_errc c s Hc Hr Hf Hi). pose proof (failures_bound c s k Hc Hr Hm).
+    pose proof (failures_le_eligible c s elig Hc Hr (fun n => proj2 (He n))). lia.
+  - left. split; [unfold over_max in Ho; rewrite Hm in Ho; apply Nat.ltb_ge in Ho; exact Ho|].
+    apply (failures_all_if_not_stopped c s elig); auto.
+Qed.
+
+(** one worker: exactly min (k+1) (#eligible) failures *)
+Theorem single_worker_exact_list c s k elig :
+  cfg_ok c -> acyclic (g c) -> workers c = 1 -> max_errors c = Some k ->
+  reachable c s -> final s -> intr s = None ->
+  NoDup elig -> (forall n, In n elig <-> eligible c n) ->
+  nfail (hist s) = min (k + 1) (length elig).
+Proof.
+  intros Hc Ha W Hm Hr Hf Hi Hnd He.
+  pose proof (final_errc c s Hc Hr Hf Hi) as Herr.
+  destruct (failures_final c s k elig Hc Ha Hm Hr Hf Hi Hnd He) as [[H1 H2]|(H1 & H2 & H3)]; lia.
+Qed.
